@@ -13,7 +13,7 @@ GROUP = {
         ("text", "chrono.rs"),
         ("text", "camt_stub.rs"),
         U("OwnedAmount(type)", AM, [r"pub struct OwnedAmount\b"]),
-        ("raw", "pub mod xmlnode {\nuse super::*;\npub use super::xmlnode_stub::{DateHolder, Entry, CreditDebitIndicator, References, TransactionDetails, Statement, Balance, BalanceType, CodeOrProperty, BalanceCodeValue, Charges, ChargeRecord};\n"),
+        ("raw", "pub mod xmlnode {\nuse super::*;\npub use super::xmlnode_stub::{DateHolder, Entry, CreditDebitIndicator, References, TransactionDetails, Statement, Balance, BalanceType, CodeOrProperty, BalanceCodeValue, Charges, ChargeRecord, AmountDetails, AmountWithExchange, CurrencyExchange, ExchangeRate};\n"),
         U("xmlnode::CreditOrDebit", XN, [r"pub enum CreditOrDebit\b"], derive="Clone, Copy"),
         U("xmlnode::Amount", XN, [r"pub struct Amount\b"]),
         U("xmlnode::BalanceCode", XN, [r"pub enum BalanceCode\b"], derive="PartialEq, Eq, Clone, Copy"),
@@ -224,5 +224,45 @@ pub open spec fn first_with_code(bals: Seq<xmlnode::Balance>, code: xmlnode::Bal
         invariant ci__ <= charges.records@.len(), txn.amount == old(txn).amount, txn.date == old(txn).date, txn.balance == old(txn).balance,
         decreases charges.records@.len() - ci__,
 """}),
+        # ---- a detail booked in another currency: the transferred amount and its rate
+        U("CommodityPair(type)", SE, [r"pub struct CommodityPair\b"]),
+        ("raw", """
+impl Txn {
+    /// Txn::add_rate (String-keyed table: ASSUMED here; what it records is a slice in group csvrow): only the rate table changes
+    #[verifier::external_body]
+    pub fn add_rate(&mut self, key: CommodityPair, rate: Decimal) -> (r: Result<&mut Txn, ImportError>)
+        ensures
+            r matches Ok(t) ==> *final(self) == *final(t) && t.amount == old(self).amount && t.date == old(self).date && t.balance == old(self).balance
+                && t.transferred_amount == old(self).transferred_amount && t.charges == old(self).charges,
+            r is Err ==> *final(self) == *old(self),
+    { unimplemented!() }
+}
+"""),
+        ("raw", """
+/// the amount a detail was settled in when that differs from the booked amount (None: no amount details, or the same amount)
+pub open spec fn other_currency(t: &xmlnode::TransactionDetails) -> Option<xmlnode::Amount> {
+    match t.amount_details {
+        Some(ad) => if t.amount.currency@ == ad.transaction.amount.currency@ && t.amount.value.val() == ad.transaction.amount.value.val() { None } else { Some(ad.transaction.amount) },
+        None => None,
+    }
+}
+"""),
+        U("callsite:import.detail_in_another_currency", CA, [r"pub fn import<R>"], fn="detail_transfer", no_canary=True,
+          slice=r"(if let Some\(amount_details\) = transaction\.amount_details\.as_ref\(\) \{[\s\S]*?\n                \})\s*add_charges\(&mut txn, config, &entry\.charges\)\?;\s*add_charges\(&mut txn, config, &transaction\.charges\)\?;", slice_count=1, slice_raw=True,
+          rewrites=[("R24-std-model", "re:if (transaction\\.amount) != (amount_details\\.transaction\\.amount) \\{", "if amount_ne(&\\1, &\\2) {", 1),
+                    ("R24-std-model", "exchange.source_currency.clone()", "string_clone(&exchange.source_currency)", 1), ("R24-std-model", "exchange.target_currency.clone()", "string_clone(&exchange.target_currency)", 1)],
+          slice_template="""fn detail_transfer(txn: &mut Txn, transaction: &xmlnode::TransactionDetails) -> (r: Result<(), ImportError>)
+    ensures
+        // C18: what moves the ACCOUNT is never touched by the currency details of a record
+        final(txn).amount == old(txn).amount, final(txn).date == old(txn).date, final(txn).balance == old(txn).balance,   // @import.currency_details_never_change_the_account_posting
+        // the counter amount is the detail's transaction amount, signed by the detail's own indicator - only when it differs from the booked amount
+        (r is Ok && other_currency(transaction) is Some) ==> (final(txn).transferred_amount matches Some(x)
+            && x.commodity@ == other_currency(transaction)->Some_0.currency@
+            && x.value.val() == (if transaction.credit_or_debit.value is Credit { other_currency(transaction)->Some_0.value.val() } else { -other_currency(transaction)->Some_0.value.val() })),   // @import.transferred_amount_signed_by_the_detail_indicator
+        (r is Ok && other_currency(transaction) is None) ==> final(txn).transferred_amount == old(txn).transferred_amount,   // @import.same_currency_detail_has_no_transferred_amount
+{
+    {EXPR}
+    Ok(())
+}"""),
     ],
 }
